@@ -109,7 +109,9 @@ class ConstantFolder(BlockPass):
                     a = self.eval_const(instruction.a.b)
                     b = self.eval_const(instruction.b)
                     assert a.ty is b.ty
-                    cn = ir.Const(a.value + b.value, "new_fold", a.ty)
+                    cn = ir.Const(
+                        cast(a.value + b.value, a.ty), "new_fold", a.ty
+                    )
                     block.insert_instruction(
                         cn, before_instruction=instruction
                     )
@@ -130,7 +132,9 @@ class ConstantFolder(BlockPass):
                     a = self.eval_const(instruction.a.b)
                     b = self.eval_const(instruction.b)
                     assert a.ty is b.ty
-                    cn = ir.Const(a.value + b.value, "new_fold", a.ty)
+                    cn = ir.Const(
+                        cast(a.value + b.value, a.ty), "new_fold", a.ty
+                    )
                     block.insert_instruction(
                         cn, before_instruction=instruction
                     )
